@@ -23,6 +23,10 @@ DoPost == O!PostCollect
 Next == DoCollect \/ DoPost
 Spec == Init /\ [][Next]_vars
 
+\* spec -> code: print every reachable carried state (configuration, wrapped environment state, policy state); lvf/onpolicy_suite.py
+\* places the real collector in each of them and runs one real step per key (state cover of the bounded model)
+Emit == PrintT(<<"ST", cfg.id, es.s, es.cnt, ps>>)
+
 RatioOne == O!RatioOne
 EnvSawClipped == O!EnvSawClipped
 RestartAfterDone == O!RestartAfterDone
